@@ -33,6 +33,8 @@ type PtrProg struct {
 	NSites  int            // number of call-site ids
 	NProbes int            // number of probe ids
 	Stats   map[string]int // statement kinds emitted
+	// further packages of the module (path -> source): the same for both builds / analysed build / native build
+	Shared, StubFiles, NativeFiles map[string]string
 }
 
 // PtrOpts tunes the generator.
@@ -1000,7 +1002,8 @@ func (g *pgen) structStmt(ind int, e *pvars) {
 // rtKinds names the round trips (index = case number in roundTrip).
 var rtKinds = []string{"field", "map", "mapk", "chan", "slice", "array", "pp", "append", "any", "anyfield", "global", "iface",
 	"closure", "dyncall", "static", "invoke", "bound", "phi", "panic", "select", "results", "map-range", "mapk-range",
-	"funcfield", "copy", "go", "assert-iface"}
+	"funcfield", "copy", "go", "assert-iface",
+	"dup-dyncall", "dup-invoke", "dup-mapkv", "dup-fields", "twice", "generic-twice", "iface-keyed-map"}
 
 // roundTrip emits a store into some kind of cell immediately followed by a load from it, so that the
 // native run is certain to observe the flow (the free-form statements above rarely hit the same cell).
@@ -1142,6 +1145,69 @@ func (g *pgen) roundTrip(ind int, e *pvars) {
 		g.emit(ind+1, "%s = <-%s", v, c)
 		g.emit(ind, "}")
 		g.count("rt-go")
+	case 27: // the same pointer at two argument positions of a call through a function value
+		fn := g.v("h2")
+		g.emit(ind, "%s := pick2a%d", fn, g.caseNo)
+		g.emit(ind, "if %s {", g.newCond())
+		g.emit(ind+1, "%s = pick2b%d", fn, g.caseNo)
+		g.emit(ind, "}")
+		g.emit(ind, "%s := %s(%d, %s, %s)", v, fn, g.newSite(), x, x)
+		g.count("rt-dup-dyncall")
+	case 28: // the same pointer at two argument positions of an interface method call
+		kv := g.v("kv")
+		g.emit(ind, "var %s K = &E%d{s: %s}", kv, g.caseNo, g.pick(e.P))
+		g.emit(ind, "if %s {", g.newCond())
+		g.emit(ind+1, "%s = &B%d{s: %s}", kv, g.caseNo, g.pick(e.P))
+		g.emit(ind, "}")
+		g.emit(ind, "%s := %s.M2(%d, %s, %s)", v, kv, g.newSite(), x, x)
+		g.count("rt-dup-invoke")
+	case 29: // one value stored as key and as value of a map reached through a parameter
+		m := g.v("mk")
+		g.emit(ind, "%s := make(map[*S]*S)", m)
+		g.probeMK(ind, m)
+		e.MK = append(e.MK, m)
+		g.emit(ind, "setkk%d(%d, %s, %s)", g.caseNo, g.newSite(), m, x)
+		g.emit(ind, "%s := %s[%s]", v, m, x)
+		w := g.v("p")
+		g.emit(ind, "%s := %s", w, g.pick(e.P))
+		g.emit(ind, "for k := range %s {", m)
+		g.emit(ind+1, "%s = k", w)
+		g.emit(ind, "}")
+		g.defP(ind, e, w, true)
+		g.count("rt-dup-mapkv")
+	case 30: // one value stored into two fields of an object reached through a parameter
+		h := g.pick(e.P)
+		g.emit(ind, "set2%d(%d, %s, %s)", g.caseNo, g.newSite(), h, x)
+		w := g.v("p")
+		g.emit(ind, "%s := %s.p", w, h)
+		g.defP(ind, e, w, true)
+		g.emit(ind, "%s := %s.q", v, h)
+		g.count("rt-dup-fields")
+	case 31: // two dynamic call sites of one function reaching the same bound-method wrapper
+		g.emit(ind, "%s := twice%d(%d, (&E%d{s: %s}).M, %s)", v, g.caseNo, g.newSite(), g.caseNo, x, g.pick(e.P))
+		g.count("rt-twice")
+	case 32: // a generic function instantiated twice, each instance calling a different function argument
+		pp := g.v("pp")
+		loc := g.v("loc")
+		g.emit(ind, "%s := %s", loc, x)
+		g.emit(ind, "%s := gap%d[**S](%d, echopp%d, &%s)", pp, g.caseNo, g.newSite(), g.caseNo, loc)
+		g.probePP(ind, pp)
+		e.PP = append(e.PP, pp)
+		g.emit(ind, "%s := gap%d[*S](%d, echo%d, %s)", v, g.caseNo, g.newSite(), g.caseNo, x)
+		g.count("rt-generic-twice")
+	case 33: // map keyed by interfaces with pointer-free elements: range key invoked
+		iv := g.v("iv")
+		g.emit(ind, "var %s I = &E%d{s: %s}", iv, g.caseNo, x)
+		e.I = append(e.I, iv)
+		ls := g.v("ls")
+		g.emit(ind, "%s := map[I]bool{%s: true}", ls, iv)
+		g.emit(ind, "%s := rangeI%d(%d, %s, %s)", v, g.caseNo, g.newSite(), ls, g.pick(e.P))
+		pk := g.v("pk")
+		g.emit(ind, "%s := map[*S]bool{%s: true}", pk, x)
+		w := g.v("p")
+		g.emit(ind, "%s := rangeP%d(%d, %s, %s)", w, g.caseNo, g.newSite(), pk, g.pick(e.P))
+		g.defP(ind, e, w, true)
+		g.count("rt-iface-keyed-map")
 	case 26: // interface to interface assertion
 		iv := g.v("iv")
 		g.emit(ind, "var %s I = &A%d{s: %s, t: %s}", iv, g.caseNo, x, x)
@@ -1385,6 +1451,96 @@ func (g *pgen) genCase(c int) {
 	g.emit(1, "}")
 	g.emit(1, "return r.s")
 	g.emit(0, "}")
+	for _, nm := range []string{"a", "b"} {
+		g.emit(0, "func pick2%s%d(site int, x, y *S) *S {", nm, c)
+		g.emit(1, "if enter(%d, site) {", g.newFid())
+		g.emit(2, "return x")
+		g.emit(1, "}")
+		g.probeP(1, "y")
+		g.emit(1, "if %s {", g.newCond())
+		g.emit(2, "return x")
+		g.emit(1, "}")
+		g.emit(1, "return y")
+		g.emit(0, "}")
+	}
+	for _, recv := range []string{"E", "B"} {
+		g.emit(0, "func (r *%s%d) M2(site int, x, y *S) *S {", recv, c)
+		g.emit(1, "if enter(%d, site) {", g.newFid())
+		g.emit(2, "return x")
+		g.emit(1, "}")
+		g.probeP(1, "y")
+		g.emit(1, "if %s {", g.newCond())
+		g.emit(2, "return x")
+		g.emit(1, "}")
+		g.emit(1, "return y")
+		g.emit(0, "}")
+	}
+	// maps with pointer-free elements keyed by interfaces / pointers, reached through a parameter
+	g.emit(0, "func rangeI%d(site int, ls map[I]bool, x *S) *S {", c)
+	g.emit(1, "if enter(%d, site) {", g.newFid())
+	g.emit(2, "return x")
+	g.emit(1, "}")
+	g.emit(1, "v := x")
+	g.emit(1, "for k := range ls {")
+	g.emit(2, "v = k.M(%d, x)", g.newSite())
+	g.emit(1, "}")
+	g.emit(1, "return v")
+	g.emit(0, "}")
+	g.emit(0, "func rangeP%d(site int, pk map[*S]bool, x *S) *S {", c)
+	g.emit(1, "if enter(%d, site) {", g.newFid())
+	g.emit(2, "return x")
+	g.emit(1, "}")
+	g.emit(1, "v := x")
+	g.emit(1, "for k := range pk {")
+	g.emit(2, "v = k")
+	g.emit(1, "}")
+	g.emit(1, "return v")
+	g.emit(0, "}")
+	g.emit(0, "func setkk%d(site int, m map[*S]*S, u *S) {", c)
+	g.emit(1, "if enter(%d, site) {", g.newFid())
+	g.emit(2, "return")
+	g.emit(1, "}")
+	g.emit(1, "m[u] = u")
+	g.emit(0, "}")
+	g.emit(0, "func set2%d(site int, h *S, u *S) {", c)
+	g.emit(1, "if enter(%d, site) {", g.newFid())
+	g.emit(2, "return")
+	g.emit(1, "}")
+	g.emit(1, "h.p = u")
+	g.emit(1, "h.q = u")
+	g.emit(0, "}")
+	g.emit(0, "func twice%d(site int, f func(int, *S) *S, x *S) *S {", c)
+	g.emit(1, "if enter(%d, site) {", g.newFid())
+	g.emit(2, "return x")
+	g.emit(1, "}")
+	g.emit(1, "a := f(%d, x)", g.newSite())
+	g.emit(1, "if a == nil {")
+	g.emit(2, "a = x")
+	g.emit(1, "}")
+	g.probeP(1, "a")
+	g.emit(1, "b := f(%d, a)", g.newSite())
+	g.emit(1, "if b == nil {")
+	g.emit(2, "b = a")
+	g.emit(1, "}")
+	g.emit(1, "return b")
+	g.emit(0, "}")
+	g.emit(0, "func echopp%d(site int, x **S) **S {", c)
+	g.emit(1, "if enter(%d, site) {", g.newFid())
+	g.emit(2, "return x")
+	g.emit(1, "}")
+	g.emit(1, "if x == nil {")
+	g.emit(2, "return &G%d", c)
+	g.emit(1, "}")
+	g.emit(1, "return x")
+	g.emit(0, "}")
+	g.emit(0, "func gap%d[T any](site int, f func(int, T) T, x T) T {", c)
+	g.emit(1, "if enter(%d, site) {", g.newFid())
+	g.emit(2, "return x")
+	g.emit(1, "}")
+	g.emit(1, "var keepT [1]T")
+	g.emit(1, "keepT[0] = f(%d, x)", g.newSite())
+	g.emit(1, "return keepT[0]")
+	g.emit(0, "}")
 	g.emit(0, "func pub%d(site int, x *S, c chan *S) {", c)
 	g.emit(1, "if enter(%d, site) {", g.newFid())
 	g.emit(2, "return")
@@ -1538,6 +1694,9 @@ func (r VV) M(site int, x *S) *S {
 
 type I interface{ M(site int, x *S) *S }
 
+// K has a method with two pointer parameters.
+type K interface{ M2(site int, x, y *S) *S }
+
 type J interface {
 	I
 	N(site int) *S
@@ -1554,6 +1713,60 @@ func guard(site int) {
 	recover()
 }
 
+`
+
+// pkgSrc renders one of the two sibling packages: a type with an UNEXPORTED method m, an interface
+// naming that method, and a function that invokes it.  Both packages use the same method name, so the
+// two methods differ only by their package.
+func pkgSrc(pkg, typ string, fidM, fidDo, site int) string {
+	return fmt.Sprintf(`package %[1]s
+
+import "vprog/rt"
+
+type %[2]s struct {
+	N int
+	P *int
+}
+
+func (a *%[2]s) m(site int) *int {
+	if rt.Enter(%[3]d, site) {
+		return nil
+	}
+	return a.P
+}
+
+type I interface{ m(site int) *int }
+
+func Do(site int, x I) *int {
+	if rt.Enter(%[4]d, site) {
+		return nil
+	}
+	return x.m(%[5]d)
+}
+`, pkg, typ, fidM, fidDo, site)
+}
+
+// multiPkgMain: a type embedding the types of both packages, invoked through each package's interface.
+const multiPkgMain = `
+type T3 struct {
+	pa.A
+	pb.B
+}
+
+func multipkg(site int) {
+	if enter(900015, site) {
+		return
+	}
+	v, w := 7, 8
+	t := &T3{}
+	t.A.P = &v
+	t.B.P = &w
+	p := pa.Do(900003, t)
+	q := pb.Do(900004, t)
+	if p != nil && q != nil {
+		*p = *q
+	}
+}
 `
 
 const ptrStub = `package main
@@ -1649,8 +1862,10 @@ func GenPtrProg(r *rand.Rand, o PtrOpts) *PtrProg {
 	for c := 0; c < o.Cases; c++ {
 		g.genCase(c)
 	}
+	g.b.WriteString(multiPkgMain)
 	g.emit(0, "func main() {")
 	g.emit(1, "setup()")
+	g.emit(1, "multipkg(%d)", g.newSite())
 	for c := 0; c < o.Cases; c++ {
 		g.emit(1, "if want(%d) {", c)
 		g.emit(2, "case%d(%d)", c, g.newSite())
@@ -1658,6 +1873,9 @@ func GenPtrProg(r *rand.Rand, o PtrOpts) *PtrProg {
 	}
 	g.emit(1, "waitAll()")
 	g.emit(0, "}")
-	return &PtrProg{Main: g.b.String(), Stub: ptrStub, Native: ptrNative, NCases: o.Cases,
+	return &PtrProg{Shared: map[string]string{"pa/pa.go": pkgSrc("pa", "A", 900011, 900013, 900001), "pb/pb.go": pkgSrc("pb", "B", 900012, 900014, 900002)},
+		StubFiles:   map[string]string{"rt/rt.go": "package rt\n\nvar Flag bool\n\nfunc Enter(fid, site int) bool { return Flag }\n"},
+		NativeFiles: map[string]string{"rt/rt.go": "package rt\n\nimport \"fmt\"\n\nfunc Enter(fid, site int) bool {\n\tfmt.Printf(\"E %d %d\\n\", fid, site)\n\treturn false\n}\n"},
+		Main:        strings.Replace(g.b.String(), "package main\n", "package main\n\nimport (\n\t\"vprog/pa\"\n\t\"vprog/pb\"\n)\n", 1), Stub: ptrStub, Native: ptrNative, NCases: o.Cases,
 		NFuncs: g.fid, NSites: g.site, NProbes: g.probe, Stats: g.stats}
 }
